@@ -194,8 +194,8 @@ func CheckLinksOver(st *state.StateDB, cands []common.Address, dlgs []common.Add
 	if err != nil {
 		return []string{"stat-load-error: " + err.Error()}
 	}
-	if got, want := ObserveStat(stat), ObserveStat(RecomputeStat(vals, stat)); got != want {
-		bad = append(bad, fmt.Sprintf("stat-drift: stored %s recomputed %s", got, want))
+	if d := statDeltas(stat, RecomputeStat(vals, stat)); d != "" {
+		bad = append(bad, fmt.Sprintf("stat-drift: stored minus recomputed: %s", d))
 	}
 	zero := new(big.Int)
 	byDelegator := map[common.Address][]common.Address{}
@@ -231,10 +231,10 @@ func CheckLinksOver(st *state.StateDB, cands []common.Address, dlgs []common.Add
 			sumByDelegator[d.Delegator].Add(sumByDelegator[d.Delegator], d.Token)
 		}
 		if tok.Cmp(v.Token) != 0 {
-			bad = append(bad, fmt.Sprintf("token-sum: %s token=%v self+delegations=%v", v.Name, v.Token, tok))
+			bad = append(bad, fmt.Sprintf("token-sum: %s delta=%v (token=%v self+delegations=%v)", v.Name, new(big.Int).Sub(v.Token, tok), v.Token, tok))
 		}
 		if stk.Cmp(v.Stake) != 0 {
-			bad = append(bad, fmt.Sprintf("stake-sum: %s stake=%v self+delegations=%v", v.Name, v.Stake, stk))
+			bad = append(bad, fmt.Sprintf("stake-sum: %s delta=%v (stake=%v self+delegations=%v)", v.Name, new(big.Int).Sub(v.Stake, stk), v.Stake, stk))
 		}
 	}
 	// index == set of existing validators
@@ -264,7 +264,7 @@ func CheckLinksOver(st *state.StateDB, cands []common.Address, dlgs []common.Add
 			db = new(big.Int)
 		}
 		if db.Cmp(ws) != 0 {
-			bad = append(bad, fmt.Sprintf("delegation-balance: delegator %x balance=%v sum of delegations=%v", d[:2], db, ws))
+			bad = append(bad, fmt.Sprintf("delegation-balance: delegator %x delta=%v (balance=%v sum of delegations=%v)", d[:2], new(big.Int).Sub(db, ws), db, ws))
 		}
 	}
 	return bad
@@ -291,4 +291,38 @@ func ObserveStaking(st *state.StateDB) string {
 		st.PendingRelationshipExist(Acc[2], ValAddr[2]), st.DelegatorPendingCount(Acc[2]), st.ValidatorPendingCount(ValAddr[0]),
 		st.ValidatorPendingCount(ValAddr[2]), st.PendingValidatorExist(ValAddr[1]))
 	return b.String()
+}
+
+// statDeltas lists, field by field, stored minus recomputed (empty = equal).
+func statDeltas(a, b *state.ValidatorsStat) string {
+	var out []string
+	cmp := func(name string, x, y *state.ValKindStat) {
+		f := func(field string, p, q *big.Int) {
+			if p.Cmp(q) != 0 {
+				out = append(out, fmt.Sprintf("%s.%s:%v", name, field, new(big.Int).Sub(p, q)))
+			}
+		}
+		f("onStake", x.GetOnlineStake(), y.GetOnlineStake())
+		f("onToken", x.GetOnlineToken(), y.GetOnlineToken())
+		f("onCount", new(big.Int).SetUint64(x.GetCount()), new(big.Int).SetUint64(y.GetCount()))
+		f("offStake", x.GetOfflineStake(), y.GetOfflineStake())
+		f("offToken", x.GetOfflineToken(), y.GetOfflineToken())
+		f("offCount", new(big.Int).SetUint64(x.GetOfflineCount()), new(big.Int).SetUint64(y.GetOfflineCount()))
+	}
+	for _, k := range []params.ValidatorKind{params.KindValidator, params.KindChamber, params.KindHouse} {
+		cmp(fmt.Sprintf("K%d", k), a.GetByKind(k), b.GetByKind(k))
+	}
+	for _, ro := range []params.ValidatorRole{params.RoleChancellor, params.RoleSenator, params.RoleHouse} {
+		cmp(fmt.Sprintf("R%d", ro), a.GetByRole(ro), b.GetByRole(ro))
+	}
+	return strings.Join(out, " ")
+}
+
+// PersistKey is the identity of a discrepancy that survives unrelated changes:
+// kind, entity and delta, without the absolute amounts in parentheses.
+func PersistKey(b string) string {
+	if i := strings.Index(b, " ("); i > 0 {
+		return b[:i]
+	}
+	return b
 }
